@@ -82,6 +82,28 @@ def _tokens(sym) -> Set[str]:
     return {t for t in s if not t.startswith("$") and not t.startswith("k")}
 
 
+def _index_terms(sym, out: Set) -> None:
+    """Whole index terms (not just the tokens inside them) of the atoms of a term."""
+    if sym is None or not isinstance(sym, tuple) or not sym:
+        return
+    k = sym[0]
+    if k == "in":
+        out.update(sym[3][:1])
+    elif k == "elem":
+        out.update(sym[2][:1] if sym[2] else ())
+        out.add(sym[3])
+    elif k == "rd":
+        out.update(sym[2][:1])
+    elif k == "idx":
+        out.add(sym[1])
+    elif k in ("const", "param", "lenterm", "len", "opq"):
+        return
+    else:
+        for a in sym[1:]:
+            if isinstance(a, tuple):
+                _index_terms(a, out)
+
+
 def _swap_heads(sym, h1, h2):
     def fn(t):
         if t == h1:
@@ -141,10 +163,18 @@ def discover(prog, roles):
     if not omega_tags:
         return None, f"no team-level accumulator flows into the mu update (accumulators seen: {sorted(mu_tags)})"
     pairs = {}
+
+    def _own(sym) -> bool:
+        """The instance of the per-team quantity at the updated team itself: every position in it is exactly the token ti
+        (a computed neighbour such as at(i - 1) mentions ti too, but is another team)."""
+        terms: Set = set()
+        _index_terms(sym, terms)
+        return bool(terms) and all(t == ivar(ti) or (t[0] == "perm" and t[3] == ivar(ti)) for t in terms)
+
     for c in p0.cmps:
         if not in_kernel(c["stack"]):
             continue
-        a_has, b_has = ti in _tokens(c["a"]), ti in _tokens(c["b"])
+        a_has, b_has = _own(c["a"]), _own(c["b"])
         if a_has == b_has:
             continue
         q_sym, i_sym = (c["b"], c["a"]) if a_has else (c["a"], c["b"])
